@@ -5,6 +5,7 @@ import (
 	"fmt"
 	"io"
 	"net"
+	"os"
 	"strconv"
 	"strings"
 	"time"
@@ -35,6 +36,8 @@ type c27Case struct {
 	Frame  string `json:"frame"` // cl | chunked | close | clshort   (backend) ; cl | nocl (module)
 	Bconn  string `json:"bconn"` // backend's Connection header: "" | close | keep-alive
 	Noise  int    `json:"noise"` // number of extra end-to-end headers
+	// streamed response to a slow client (c27stream.go); nil for the enumerated cases
+	Stream *c27Stream `json:"stream,omitempty"`
 }
 
 func c27Body(id string, n int) []byte {
@@ -51,6 +54,9 @@ func c27Body(id string, n int) []byte {
 }
 
 func (c *c27Case) bytes() []byte {
+	if c.Stream != nil {
+		return c27StreamRequest(c)
+	}
 	var sb strings.Builder
 	fmt.Fprintf(&sb, "%s /c27/%s HTTP/1.%d\r\nHost: c27.test\r\nX-Id: %s\r\nX-Src: %s\r\nX-Status: %d\r\nX-Blen: %d\r\nX-Frame: %s\r\nX-Bconn: %s\r\nX-Noise: %d\r\n",
 		c.Method, c.ID, c.Minor, c.ID, c.Source, c.Status, c.Blen, c.Frame, c.Bconn, c.Noise)
@@ -133,10 +139,16 @@ func c27(r *vkit.Run) {
 	bs := e2e.NewBackendSet()
 	defer bs.Close()
 	be := bs.New("b1", c27BackendAction)
-	srv, err := e2e.Start(&e2e.Options{Clusters: []e2e.Cluster{{
+	sbe, err := newC27StreamBackend()
+	if err != nil {
+		r.Inconclusive("stream backend: " + err.Error())
+		return
+	}
+	defer sbe.ln.Close()
+	srv, err := e2e.Start(&e2e.Options{Clusters: append([]e2e.Cluster{{
 		Name: "c27", Hosts: []string{"c27.test"}, MaxIdleConnsPerHost: 0,
 		SubClusters: []e2e.SubCluster{{Name: "sub1", Weight: 100, Backends: []e2e.Backend{{Name: "b1", Addr: be.Addr, Port: be.Port, Weight: 10}}}},
-	}}})
+	}}, c27StreamClusters(sbe)...)})
 	if err != nil {
 		r.Inconclusive("server start: " + err.Error())
 		return
@@ -214,12 +226,26 @@ func c27(r *vkit.Run) {
 				}
 			}
 		}
-		r.SetExhaustive(true)
+		if os.Getenv("VERIF_C27_STREAM_ONLY") != "" { // development aid; such a run never counts
+			cases = cases[:200]
+			r.Inconclusive("partial run (VERIF_C27_STREAM_ONLY)")
+		}
+		r.Count("enumerated_cases", int64(len(cases)))
+		cases = append(cases, c27StreamCases(r)...)
 	}
 
 	raws := make([][]byte, len(cases))
 	eofs := make([]bool, len(cases))
-	vkit.Parallel(len(cases), 32, func(i int) {
+	var enumIdx, streamIdx []int
+	for i, c := range cases {
+		if c.Stream != nil {
+			streamIdx = append(streamIdx, i)
+		} else {
+			enumIdx = append(enumIdx, i)
+		}
+	}
+	vkit.Parallel(len(enumIdx), 32, func(k int) {
+		i := enumIdx[k]
 		c := cases[i]
 		conn, err := net.DialTimeout("tcp", srv.HTTPAddr, 10*time.Second)
 		if err != nil {
@@ -233,11 +259,20 @@ func c27(r *vkit.Run) {
 		raws[i] = b
 		eofs[i] = err == nil
 	})
+	// streamed responses to slow clients run after the enumeration, so that the enumeration's load does not blur their timing
+	stallCapacity := c27RunStream(r, srv.HTTPAddr, sbe, cases, streamIdx, raws, eofs)
 
+	enumSamples, streamSamples := 0, 0
 	for i, c := range cases {
 		raw := raws[i]
 		key := fmt.Sprintf("%s|1.%d|%s|%s|%d|%d|%s|%s|%d", c.Method, c.Minor, c.Conn, c.Source, c.Status, c.Blen, c.Frame, c.Bconn, c.Noise)
+		if c.Stream != nil {
+			key += "|" + c.Stream.key()
+		}
 		w := map[string]interface{}{"case": c, "request": string(c.bytes()), "client_bytes": clip(string(raw), 1500), "client_len": len(raw), "eof": eofs[i]}
+		if c.Stream != nil {
+			w["client_bytes_tail"] = clip(string(raw[max(0, len(raw)-700):]), 700)
+		}
 		if !eofs[i] {
 			r.CaseS(key, false)
 			r.Count("client_watchdog_or_reset_skipped", 1)
@@ -245,6 +280,13 @@ func c27(r *vkit.Run) {
 		}
 		r.CaseS(key, len(raw) > 0)
 		sig := fmt.Sprintf("%s:%s:%d:%s", c.Source, c.Method, c.Status, c.Frame)
+		if c.Stream != nil {
+			sig = fmt.Sprintf("stream:flush-%dms", c.Stream.FlushMs)
+			if c.Stream.SSE {
+				sig += "+sse"
+			}
+			sig += ":" + c.Frame
+		}
 		if len(raw) == 0 {
 			r.Violation("no-response:"+sig, "connection closed without any response byte", w)
 			continue
@@ -298,6 +340,19 @@ func c27(r *vkit.Run) {
 		if resp.Framing == http1.FramingChunked && c.Minor == 0 {
 			r.Violation("chunked-to-http10-client:"+sig, "chunked coding sent to an HTTP/1.0 client", w)
 		}
+		if st := c.Stream; st != nil {
+			r.Count("stream_responses_judged", 1)
+			if st.Family == "brim" && stallCapacity > 0 {
+				// evidence only: did the last piece of the body straddle the point where a write to this stalled client blocks?
+				end := n
+				if resp.Framing == http1.FramingChunked {
+					end -= len("0\r\n\r\n")
+				}
+				if start := end - st.Piece - 8; start <= stallCapacity+2048 && end >= stallCapacity-2048 {
+					r.Count("stream_brim_last_piece_within_2KB_of_measured_stall_capacity", 1)
+				}
+			}
+		}
 		rest := raw[n:]
 		if resp.CloseDelimited {
 			r.Count("close_delimited_responses", 1)
@@ -313,7 +368,13 @@ func c27(r *vkit.Run) {
 		} else {
 			r.Count("closed_after_response", 1)
 		}
-		if r.WantSample() && i%997 == 0 {
+		if r.WantSample() && i%997 == 0 && c.Stream == nil && enumSamples < 5 {
+			enumSamples++
+			r.Sample(w)
+		}
+		if c.Stream != nil && streamSamples < 3 && r.WantSample() && i%41 == 0 {
+			streamSamples++
+			w["client_bytes"] = clip(string(raw), 300)
 			r.Sample(w)
 		}
 	}
@@ -324,5 +385,20 @@ func c27(r *vkit.Run) {
 	}
 	if r.Replay == "" && (r.Counter("probe_answered_in_sync") == 0 || r.Counter("close_delimited_responses") == 0) {
 		r.Inconclusive("keep-alive or close-delimited path never observed")
+	}
+	if r.Replay == "" {
+		for _, k := range []string{"stream_cases_brim", "stream_cases_sweep", "stream_cases_sse-brim", "stream_cases_mix", "stream_flush_1ms", "stream_flush_5ms", "stream_flush_20ms", "stream_flush_0ms+sse",
+			"stream_client_drain-after-backend-done", "stream_client_stall", "stream_client_slow", "stream_client_stall-mid", "stream_client_fast",
+			"stream_backend_framing_chunked", "stream_backend_framing_close", "stream_bodies_of_1MB_or_more"} {
+			if r.Counter(k) == 0 {
+				r.Inconclusive("stream cases: kind never ran: " + k)
+			}
+		}
+		if r.Counter("stream_responses_judged") < int64(len(streamIdx))*8/10 {
+			r.Inconclusive(fmt.Sprintf("stream cases: only %d of %d responses reached a clean end of stream", r.Counter("stream_responses_judged"), len(streamIdx)))
+		}
+		if r.Counter("stream_bfe_write_blocked_when_backend_body_ended") == 0 || r.Counter("stream_brim_last_piece_within_2KB_of_measured_stall_capacity") == 0 {
+			r.Inconclusive("stream cases: no blocked write to a stalled client was provoked (measured stall capacity outside the sweep?)")
+		}
 	}
 }
